@@ -52,6 +52,7 @@ type scriptRun struct {
 	iso []*isoProbe
 	ctl *control
 	inj *rawInjector // forged-source sender (nil: the script plans no poison)
+	mx  *mixedPlan   // mixed-eligibility bursts (nil: the script plans none)
 
 	// poison bursts (dispatch side)
 	burstWG       sync.WaitGroup
@@ -164,6 +165,9 @@ func runScript(r *vlib.Run, sp scriptSpec, jm *jitterMon) {
 	s.pl = buildPlan(r.RandN("plan", sp.Index), r.RandN("poison", sp.Index), &sp, len(e.t.zones), tw.ListenV6)
 	if len(s.pl.bursts) > 0 {
 		s.inj = injector()
+	}
+	if sp.MixedBursts > 0 {
+		s.mx = planMixed(r.RandN("mixed", sp.Index), r.RandN("mixed-tcp", sp.Index), &sp, s.pl, e)
 	}
 	for i, ip := range e.t.iso {
 		if i < sp.Iso {
@@ -512,6 +516,10 @@ func runScript(r *vlib.Run, sp scriptSpec, jm *jitterMon) {
 			r.Note("poison_kinds", s.inj.why)
 		}
 	}
+
+	// ---- mixed-eligibility bursts: a finished reply never waits for another
+	// query's resolution (mixed.go)
+	s.judgeMixed(ctlQs)
 
 	// ---- zero replies must be accounted for exactly
 	//
@@ -968,6 +976,7 @@ func (s *scriptRun) dispatch() time.Time {
 	}
 	sentGroup := map[int]bool{}
 	sentBurst := map[int]bool{}
+	sentMixed := map[int]bool{}
 	var lastUDP time.Time
 	for _, p := range items {
 		if d := time.Until(s.t0.Add(time.Duration(p.atMs) * time.Millisecond)); d > 0 {
@@ -975,6 +984,12 @@ func (s *scriptRun) dispatch() time.Time {
 		}
 		q := p.q
 		switch {
+		case p.mixed != 0:
+			if sentMixed[p.mixed] {
+				continue
+			}
+			sentMixed[p.mixed] = true
+			s.sendMixedBurst(s.mx.bursts[p.mixed-1], mark)
 		case p.burst != 0:
 			if sentBurst[p.burst] {
 				continue
